@@ -324,7 +324,7 @@ func runC20(R *vlib.Out) {
 			R.Cap("deadline")
 			break
 		}
-		scenarioBudget = vlib.Remaining() / time.Duration(len(ps)-i)
+		scenarioBudget = 4 * vlib.Remaining() / time.Duration(len(ps)-i) // most scenarios finish far below their share
 		sc := c20Scenario("c20", p)
 		sc.Bound = bound
 		exploreSched(R, sc)
